@@ -1075,3 +1075,50 @@ Proof.
   - repeat constructor; cbn; try lia; try discriminate.
   - eexists _, _. vm_compute. reflexivity.
 Qed.
+
+(* ------------------------------------------------------------------------- *)
+(* the printer model is total on good values (the round-trip theorem is not  *)
+(* vacuous for any list or option record)                                     *)
+Lemma print_scalar_some o v cols : good_val v -> exists t w c, print_scalar o v cols = Some (t, w, c).
+Proof.
+  intros Hg. destruct v; cbn [good_val] in Hg; try contradiction; cbn [print_scalar];
+    try (eexists _, _, _; reflexivity).
+  - destruct (print_string o false s cols) as [t c]. eexists _, _, _; reflexivity.
+  - destruct (print_string o true s cols) as [t c]. eexists _, _, _; reflexivity.
+Qed.
+
+Lemma print_loop_total o : forall args fuel prev i n acc pend wrt cols awtl,
+  Forall good_val args -> n = i + Z.of_nat (length args) -> (length args < fuel)%nat ->
+  (pend = false -> args = [] \/ awtl = 0) ->
+  exists r, print_vals_loop fuel o args prev i n acc pend wrt cols awtl = Some r.
+Proof.
+  induction args as [|v rest IH]; intros fuel prev i n acc pend wrt cols awtl Hg Hn Hf Hp.
+  - destruct fuel; [lia|]. cbn [print_vals_loop]. cbn in Hn. replace (n <=? i) with true by lia.
+    eexists; reflexivity.
+  - destruct fuel; [cbn in Hf; lia|]. cbn [print_vals_loop]. cbn [length] in Hn, Hf.
+    replace (n <=? i) with false by lia.
+    pose proof (Forall_inv Hg) as Hv. pose proof (Forall_inv_tail Hg) as Hg'.
+    unfold convert_to_range, print_arg_val.
+    destruct (print_scalar_some o v cols Hv) as (t & tmp & cols1 & E). rewrite E.
+    assert (Hsc : scalar v) by (destruct v; cbn in Hv; try contradiction; exact I).
+    rewrite (next_arg_offset_scalar v rest Hsc). change (skipz 1 (v :: rest)) with rest.
+    destruct (if breaks_itself (av_type v) then (false, cols1, awtl)
+              else lb_check (linelength o) cols1 tmp awtl) as [[brk_ cols2] awtl2] eqn:Elb.
+    assert (Hb : brk_ && negb pend = false).
+    { destruct pend; [now rewrite andb_false_r|]. destruct (Hp eq_refl) as [Hx|Hx]; [discriminate|].
+      rewrite Hx in Elb.
+      destruct (breaks_itself (av_type v)); [now inversion Elb|].
+      unfold lb_check in Elb. cbn [Z.add Z.ltb Z.compare Pos.compare Pos.compare_cont] in Elb.
+      rewrite andb_false_r in Elb. now inversion Elb. }
+    rewrite Hb.
+    destruct (i + 1 <? n) eqn:En; apply IH; try assumption; try lia;
+      intros Hd; try discriminate Hd; left; destruct rest; [reflexivity|cbn [length] in Hn; lia].
+Qed.
+
+Theorem print_arg_vals_total o vs : Forall good_val vs -> exists text w, print_arg_vals o vs 0 = Some (text, w).
+Proof.
+  intros Hg. unfold print_arg_vals.
+  destruct (print_loop_total o vs (S (length vs)) None 0 (Z.of_nat (length vs)) [] false 0 0 0 Hg)
+    as [[text w] E]; try lia; try (intros _; now right).
+  eexists _, _. exact E.
+Qed.
